@@ -261,6 +261,10 @@ def rule_items_appended(ctx, rule="C16-items", traits=("core::iter::traits::coll
                     elif k and k in F.bodies and k not in anchors(F) and F.bodies[k].j["kind"] != "closure":
                         todo.append(k)      # a private helper shared by several impls (`extend_pieces(iter)`)
                 continue
+            # ... and on every path: no early return before the loop (a refused pre-sizing hint is ignored,
+            # it does not end the call with nothing appended)
+            ctx.ob(rule, key, "polls-on-every-path", must_pass(b, set(nexts)), line=b.line(nexts[0]), how="every path from the entry passes next()",
+                   detail="%s can return without polling the iterator at all: the items are silently not appended on that path" % key)
             # one loop polls the iterator: String's impls stop at the first None; a second loop (after a
             # `by_ref().take(n)` batch, say) polls a non-fused iterator again after it said None
             ctx.ob(rule, key, "one-polling-site", len(nexts) == 1, line=b.line(nexts[0]), how="one next() call site",
@@ -303,3 +307,37 @@ def rule_items_appended(ctx, rule="C16-items", traits=("core::iter::traits::coll
                 ctx.ob(rule, key, "element-appended:next#%d" % nexts.index(N), bad is None, line=b.line(N), how="every path from Some(x) passes an append of x before the next next() / return",
                        detail="an element taken from the iterator can be dropped without being appended: from the Some edge of next() (line %s), %s is reachable without an append of that element" % (b.line(N), bad))
     ctx.need(rule, "crate", "collecting-loops", n >= 1, "no element loop found in the collecting impls", how="%d element loops" % n)
+
+
+def rule_no_rollback_guards(ctx, rule="C18-noguard"):
+    """Extend / FromIterator keep what was appended when the iterator panics (String does): their
+    bodies - and the private helpers they hand the iterator to - build no object with drop glue of the
+    crate's own (a guard whose Drop restores a snapshot or truncates undoes the appends)"""
+    F = ctx.F
+    local_drop = {i["self"].split("<")[0] for i in F.impls if i["trait"] == "core::ops::drop::Drop"}
+    n = 0
+    for i in F.impls:
+        if i["trait"] not in ("core::iter::traits::collect::Extend", "core::iter::traits::collect::FromIterator") or i["self"] != "LeanString":
+            continue
+        todo, done = [k for k in i["items"].values()], set()
+        while todo:
+            key = todo.pop()
+            if key in done or key not in F.bodies:
+                continue
+            done.add(key)
+            b = F.bodies[key]
+            n += 1
+            bad = []
+            for blk in b.blocks:
+                for st in blk["stmts"]:
+                    if st["k"] == "assign" and st["rv"]["k"] == "aggregate" and st["rv"].get("agg") == "adt":
+                        adt = st["rv"].get("adt") or ""
+                        if adt.split("<")[0] in local_drop and adt != "LeanString":
+                            bad.append("%s (line %s)" % (adt, st.get("line")))
+            ctx.ob(rule, key, "no-guard-object", not bad, how="no value of a local type with a Drop impl is built",
+                   detail="%s builds %s, a local type with a Drop impl: on unwind it runs and can take back what the loop appended" % (key, ", ".join(bad[:3])))
+            for bb, t in b.calls():
+                k = t.get("local_key")
+                if k and k in F.bodies and k not in anchors(F):
+                    todo.append(k)
+    ctx.need(rule, "crate", "collecting-bodies", n >= 4, "only %d collecting bodies" % n, how="%d bodies" % n)
